@@ -394,13 +394,13 @@ type DenseFloat32VectorJointIterator struct {
   idx int
   s1 Float32
   s2 ConstScalar
+  ok bool
 }
 func (obj *DenseFloat32VectorJointIterator) Index() int {
   return obj.idx
 }
 func (obj *DenseFloat32VectorJointIterator) Ok() bool {
-  return !(obj.s1.ptr == nil || obj.s1.GetFloat64() == 0.0) ||
-         !(obj.s2 == nil || obj.s2.GetFloat64() == 0.0)
+  return obj.ok
 }
 func (obj *DenseFloat32VectorJointIterator) Next() {
   ok1 := obj.it1.Ok()
@@ -421,6 +421,9 @@ func (obj *DenseFloat32VectorJointIterator) Next() {
       obj.s2 = obj.it2.GetConst()
     }
   }
+  // the iteration ends when no iterator delivered an element, zero
+  // elements must not terminate it
+  obj.ok = obj.s1.ptr != nil || obj.s2 != nil
   if obj.s1.ptr != nil {
     obj.it1.Next()
   }
@@ -454,6 +457,7 @@ func (obj *DenseFloat32VectorJointIterator) Clone() *DenseFloat32VectorJointIter
   r.idx = obj.idx
   r.s1 = obj.s1
   r.s2 = obj.s2
+  r.ok = obj.ok
   return &r
 }
 func (obj *DenseFloat32VectorJointIterator) CloneJointIterator() VectorJointIterator {
